@@ -20,6 +20,7 @@ import (
 	"sync/atomic"
 
 	"github.com/google/badwolf/triple"
+	"github.com/google/badwolf/triple/literal"
 
 	"verif/bqlm"
 	"verif/common"
@@ -181,8 +182,11 @@ func classify(q *bqlm.Query, limit int, hasLimit bool) string {
 	return strings.Join(fs, ",")
 }
 
-func check(b base, ks []bqlm.Key, limit int, hasLimit bool, data []*triple.Triple) verdict {
+func check(b base, ks []bqlm.Key, limit int, hasLimit bool, data []*triple.Triple, hv *bqlm.Expr) verdict {
 	q := &bqlm.Query{From: []string{"?g"}, Where: b.where, Proj: b.proj, GroupBy: b.group, OrderBy: ks}
+	if hv != nil {
+		q.Having = hv.Render()
+	}
 	if hasLimit {
 		q.Limit = lit(limit)
 	}
@@ -193,6 +197,20 @@ func check(b base, ks []bqlm.Key, limit int, hasLimit bool, data []*triple.Tripl
 		common.Machinery("reference evaluator: %v on %s", err, q.Render())
 	}
 	cols := q.OutCols()
+	if hv != nil { // HAVING decides which rows qualify; ORDER BY and LIMIT apply to those
+		var kept []bqlm.ORow
+		for _, r := range full {
+			row := map[string]bqlm.Val{}
+			for i, c := range cols {
+				row[c] = r[i]
+			}
+			if keep, _ := hv.Eval(row); keep {
+				kept = append(kept, r)
+			}
+		}
+		full = kept
+		v.class = strings.TrimPrefix(v.class+",having", ",")
+	}
 	fullKeys := bqlm.KeysOfRows(full, cols)
 	res := bqlm.Exec(bqlm.NewStore(graphs), q.Render(), 0, 0, cols)
 	text := q.Render()
@@ -266,6 +284,56 @@ func check(b base, ks []bqlm.Key, limit int, hasLimit bool, data []*triple.Tripl
 	return v
 }
 
+// havings: same-kind comparisons of the first key column with its median value (so that each
+// of <, >, NOT = keeps a proper, non-empty part of the rows), index 0 = no HAVING.
+func havings(b base, data []*triple.Triple) []*bqlm.Expr {
+	out := []*bqlm.Expr{nil}
+	q := &bqlm.Query{Where: b.where, Proj: b.proj, GroupBy: b.group}
+	full, err := bqlm.EvalRows(q, data)
+	if err != nil || len(full) == 0 || b.name == "alias" {
+		return out
+	}
+	cols := q.OutCols()
+	col := b.keys[0]
+	idx := -1
+	for i, c := range cols {
+		if c == col {
+			idx = i
+		}
+	}
+	var vs []bqlm.Val
+	for _, r := range full {
+		if bqlm.SortKind(r[idx]) != bqlm.SortKind(full[0][idx]) {
+			return out
+		}
+		vs = append(vs, r[idx])
+	}
+	sort.SliceStable(vs, func(i, j int) bool { return bqlm.CompareVals(vs[i], vs[j]) < 0 })
+	m := vs[len(vs)/2]
+	var op bqlm.Operand
+	switch m.Kind {
+	case 'L':
+		op = bqlm.Operand{Text: m.L.String(), V: m}
+	case 'N':
+		op = bqlm.Operand{Text: m.N.String(), V: m}
+	case 'P':
+		op = bqlm.Operand{Text: m.P.String(), V: m}
+	case 'T':
+		op = bqlm.Operand{Text: bqlm.FmtTime(m.T), V: m}
+	case 'S':
+		l := model.L(literal.Text, m.S)
+		op = bqlm.Operand{Text: l.String(), V: bqlm.Val{Kind: 'L', L: l}}
+	default:
+		return out
+	}
+	cmp := func(o string) *bqlm.Expr { return &bqlm.Expr{Kind: "cmp", Left: col, Op: o, Right: op} }
+	out = append(out, &bqlm.Expr{Kind: "not", A: cmp("=")})
+	if m.Kind == 'N' || m.Kind == 'P' {
+		return append(out, cmp("="))
+	}
+	return append(out, cmp("<"), cmp(">"))
+}
+
 func kindOfKey(r bqlm.ORow, cols []string, ks []bqlm.Key) string {
 	var out []string
 	for _, k := range ks {
@@ -310,42 +378,8 @@ func checkInvalidLimits(r *common.Run, data []*triple.Triple, evals *int64) {
 	}
 }
 
-func main() {
-	r := common.Start("C12", "model_checking")
-	data := bqlm.KindGraph()
-	bs := bases()
-	replay := func(raw json.RawMessage) (bool, string) {
-		var k kase
-		json.Unmarshal(raw, &k)
-		var bi, ki, lim, hl int
-		if _, err := fmt.Sscanf(k.Gen, "q:%d:%d:%d:%d", &bi, &ki, &lim, &hl); err != nil {
-			res := bqlm.Exec(bqlm.NewStore(map[string][]*triple.Triple{"?g": data}), k.Text, 0, 0, nil)
-			return res.Stage == "parse" || res.Stage == "execute", fmt.Sprintf("stage=%q err=%q", res.Stage, res.Err)
-		}
-		v := check(bs[bi], keyLists(bs[bi].keys)[ki], lim, hl == 1, data)
-		return v.ok, v.detail
-	}
-	r.Replayer("order", replay)
-	r.Replayer("invalid-limit", replay)
-	r.MaybeReplay()
-	type job struct{ bi, ki, lim, hl int }
-	var jobs []job
-	for bi, b := range bs {
-		q := &bqlm.Query{Where: b.where, Proj: b.proj, GroupBy: b.group}
-		full, err := bqlm.EvalRows(q, data)
-		if err != nil {
-			common.Machinery("reference evaluator: %v", err)
-		}
-		for ki := range keyLists(b.keys) {
-			jobs = append(jobs, job{bi, ki, 0, 0})
-			for n := 0; n <= len(full)+1; n++ {
-				jobs = append(jobs, job{bi, ki, n, 1})
-			}
-		}
-	}
-	// the same queries over every "prefix" of the data would multiply the cost; instead
-	// three data variants: full graph, graph without ties, first three subjects only.
-	variants := [][]*triple.Triple{data}
+// three data variants: full graph, graph without ties, three subjects only.
+func dataVariants(data []*triple.Triple) [][]*triple.Triple {
 	var noTies, small []*triple.Triple
 	for _, t := range data {
 		if t.Subject().ID().String() != "n5" {
@@ -355,8 +389,70 @@ func main() {
 			small = append(small, t)
 		}
 	}
-	if r.Thorough() {
-		variants = append(variants, noTies, small)
+	return [][]*triple.Triple{data, noTies, small}
+}
+
+func main() {
+	r := common.Start("C12", "model_checking")
+	data := bqlm.KindGraph()
+	bs := bases()
+	replay := func(raw json.RawMessage) (bool, string) {
+		var k kase
+		json.Unmarshal(raw, &k)
+		var bi, ki, lim, hl, hi int
+		gen := k.Gen
+		d := data
+		if strings.HasPrefix(gen, "variant") {
+			var vi int
+			fmt.Sscanf(gen, "variant%d:", &vi)
+			gen = gen[strings.Index(gen, ":")+1:]
+			if vs := dataVariants(data); vi < len(vs) {
+				d = vs[vi]
+			}
+		}
+		if n, _ := fmt.Sscanf(gen, "q:%d:%d:%d:%d:%d", &bi, &ki, &lim, &hl, &hi); n < 4 {
+			res := bqlm.Exec(bqlm.NewStore(map[string][]*triple.Triple{"?g": data}), k.Text, 0, 0, nil)
+			return res.Stage == "parse" || res.Stage == "execute", fmt.Sprintf("stage=%q err=%q", res.Stage, res.Err)
+		}
+		v := check(bs[bi], keyLists(bs[bi].keys)[ki], lim, hl == 1, d, havings(bs[bi], d)[hi])
+		return v.ok, v.detail
+	}
+	r.Replayer("order", replay)
+	r.Replayer("invalid-limit", replay)
+	r.MaybeReplay()
+	type job struct{ bi, ki, lim, hl, hi int }
+	var jobs []job
+	nh := 0
+	for bi, b := range bs {
+		q := &bqlm.Query{Where: b.where, Proj: b.proj, GroupBy: b.group}
+		full, err := bqlm.EvalRows(q, data)
+		if err != nil {
+			common.Machinery("reference evaluator: %v", err)
+		}
+		for ki := range keyLists(b.keys) {
+			jobs = append(jobs, job{bi, ki, 0, 0, 0})
+			for n := 0; n <= len(full)+1; n++ {
+				jobs = append(jobs, job{bi, ki, n, 1, 0})
+			}
+		}
+		// in combination with HAVING: the rows that qualify are the kept ones; every key list, limits
+		// around the number of kept rows
+		hs := havings(b, data)
+		for hi := 1; hi < len(hs); hi++ {
+			nh++
+			for ki := range keyLists(b.keys) {
+				jobs = append(jobs, job{bi, ki, 0, 0, hi})
+				for _, n := range []int{0, 1, 2, len(full) / 2, len(full)} {
+					jobs = append(jobs, job{bi, ki, n, 1, hi})
+				}
+			}
+		}
+	}
+	// the same queries over every "prefix" of the data would multiply the cost; instead
+	// three data variants: full graph, graph without ties, first three subjects only.
+	variants := dataVariants(data)
+	if !r.Thorough() {
+		variants = variants[:1]
 	}
 	var evals, nontrivial int64
 	var outcomes sync.Map
@@ -367,20 +463,31 @@ func main() {
 				return
 			}
 			j := jobs[i]
-			v := check(bs[j.bi], keyLists(bs[j.bi].keys)[j.ki], j.lim, j.hl == 1, dd)
+			var hv *bqlm.Expr
+			if j.hi > 0 {
+				hs := havings(bs[j.bi], dd)
+				if j.hi >= len(hs) {
+					return // this data variant has no such HAVING (empty or mixed-kind column)
+				}
+				hv = hs[j.hi]
+			}
+			v := check(bs[j.bi], keyLists(bs[j.bi].keys)[j.ki], j.lim, j.hl == 1, dd, hv)
 			atomic.AddInt64(&evals, 1)
 			outcomes.Store(v.outcome, true)
 			if v.ok && v.outcome != "rows=0/0" {
 				atomic.AddInt64(&nontrivial, 1)
 			}
 			if !v.ok {
-				gen := fmt.Sprintf("q:%d:%d:%d:%d", j.bi, j.ki, j.lim, j.hl)
+				gen := fmt.Sprintf("q:%d:%d:%d:%d:%d", j.bi, j.ki, j.lim, j.hl, j.hi)
 				if vi > 0 {
 					gen = fmt.Sprintf("variant%d:", vi) + gen
 				}
 				q := &bqlm.Query{From: []string{"?g"}, Where: bs[j.bi].where, Proj: bs[j.bi].proj, GroupBy: bs[j.bi].group, OrderBy: keyLists(bs[j.bi].keys)[j.ki]}
 				if j.hl == 1 {
 					q.Limit = lit(j.lim)
+				}
+				if hv != nil {
+					q.Having = hv.Render()
 				}
 				r.Fail(common.Failure{Check: "order", Class: v.class, Shape: v.shape, Case: kase{q.Render(), gen}, Detail: v.detail})
 			}
@@ -390,6 +497,7 @@ func main() {
 	r.Set("evaluations", int(evals))
 	r.Set("distinct_nontrivial", int(nontrivial))
 	r.Set("queries", len(jobs))
+	r.Set("having_variants", nh)
 	r.Set("data_variants", len(variants))
 	n := 0
 	var os []string
@@ -399,7 +507,7 @@ func main() {
 	r.Set("states", len(variants))
 	r.Set("transitions", int(evals))
 	r.Set("traces_validated_against_impl", int(evals))
-	r.Set("rule", "every (base query, ORDER BY key list, LIMIT) over each data variant is one evaluation; non-trivial = accepted and at least one row")
+	r.Set("rule", "every (base query, optional HAVING comparison, ORDER BY key list, LIMIT) over each data variant is one evaluation; non-trivial = accepted and at least one row")
 	r.Sample(map[string]interface{}{"statement": (&bqlm.Query{From: []string{"?g"}, Where: bs[5].where, Proj: bs[5].proj, OrderBy: keyLists(bs[5].keys)[7], Limit: lit(3)}).Render()})
 	r.Assume("order comparator: int64/float64 numerically, anchors chronologically, every other value by printed form; ties free; keys mixing kinds are not judged")
 	r.Assume("a repeated ORDER BY key means its first occurrence; map-iteration nondeterminism inside badwolf is not controlled in this (native) build, see C14 for the scheduled exploration")
